@@ -164,6 +164,14 @@ def programs_arrays(tier):
         F("acc", T_u(4), (24, 4), style="access_first"),                         # #[bits(rw, 24..=27)]
         F("nc", T_u(2), [(28, 1), (30, 1)], array=(2, 1), style="access_first_colon"),   # #[bits(rw, [28, 30], stride: 1)]
     ])], props=("C03", "C04", "C02", "C01", "C16", "C13", "C09")))
+    # `bits(n..=n)`: a one-bit-wide range written with the range keyword (u1, bool, 1-bit enum, array of u1)
+    e1r = mk_enum("Ear1r", 1, "true")
+    progs.append(Program("rng1", enums=[e1r], structs=[S("rng1", 16, [
+        F("ready", T_u(1), (7, 1), style="range1"),
+        F("flag", T_bool(), (3, 1), style="range1"),
+        F("p", T_enum(e1r), (4, 1), style="range1"),
+        F("en", T_u(1), (8, 1), array=(4, 2), style="range1"),
+    ])], props=("C01", "C02", "C03", "C08", "C09", "C16", "C13")))
     # zero-padded decimal literals are ordinary decimal numbers (010 is ten)
     progs.append(Program("litsty", structs=[S("litsty", 128, [
         F("x", T_u(8), (10, 8), style="zpad"),                     # #[bits(010..=017, rw)]
@@ -532,6 +540,11 @@ def programs_surface(tier):
     st = Struct("Ssurf", 16, [f_type, f_loop, f_q, f_arr, f_e], default=Default(0x8000, ":"), derives=("PartialEq", "Eq"), vis="")
     assert st.valid()
     progs.append(Program("surf", enums=[el], structs=[st], props=("C01", "C02", "C03", "C08", "C13", "C14", "C17", "C16", "C12", "C07")))
+    # field identifiers that look like generated names
+    nm = Struct("Ssurfn", 32, [F("set_point", T_u(12), (0, 12)), F("with_mask", T_u(4), (12, 4), array=(2, None)), F("get", T_bool(), (20, 1)),
+                               F("build_id", T_u(8), (24, 8), access="r")], default=Default(0x11000000, "="))
+    assert nm.valid()
+    progs.append(Program("surfn", structs=[nm], props=("C01", "C02", "C03", "C13", "C14", "C15", "C17", "C16")))
     d1 = Struct("Ssurfd", 8, [F("r#fn", T_u(4), (0, 4)), F("x", T_bool(), (7, 1))], default=Default(0x10, "="), debug=True, debug_first=True, vis="pub(crate)")
     assert d1.valid()
     progs.append(Program("surfd", structs=[d1], props=("C19", "C06", "C13")))
@@ -623,6 +636,9 @@ def programs_debug(tier):
     in4 = Struct("In4d", 4, [F("x", T_u(3), (0, 3)), F("y", T_bool(), (3, 1))], debug=True)
     progs.append(Program("dbgn", structs=[in4, S("dbgn", 16, [
         F("inner", FT("nested", 4, in4), (0, 4)), F("b", T_u(8), (4, 8)), F("hi", T_u(3), (13, 3))], debug=True)], props=("C19",)))
+    progs.append(Program("dbgov", structs=[S("dbgov", 16, [
+        F("data", T_u(8), (0, 8)), F("control", T_u(8), (8, 8)), F("divider", T_u(4), (8, 4)),     # divider overlaps control (legal, no builder)
+        F("parity", T_bool(), (12, 1)), F("enable", T_bool(), (15, 1))], debug=True)], props=("C19",)))
     progs.append(Program("dbg12", structs=[S("dbg12", 12, [
         F("a", T_u(12), (0, 12))], debug=True)], props=("C19",)))
     if tier == "thorough":
